@@ -234,7 +234,7 @@ pub fn gen_case_variant(t: &mut Tape) -> CaseVariant {
         n1: n1.to_string(),
         n2: n2.to_string(),
         other: t.pick(&["x", "Val", "w"]).to_string(),
-        shape: t.choose(5) as u8,
+        shape: t.choose(7) as u8,
     }
 }
 
@@ -253,6 +253,15 @@ pub fn program_variant(c: &CaseVariant) -> (String, Vec<String>) {
         3 => (
             format!("from {t} | select {{{a}, {b}, {x}}} | group {{{a}}} (sort {{{x}}} | take 1) | filter {b} > 0\n"),
             vec![c.n1.clone(), c.n2.clone(), c.other.clone()],
+        ),
+        // the two names as aliases of computed columns
+        5 => (
+            format!("from {t} | select {{{a} = {x} + 1, {b} = {x}}} | take 5 | filter {a} > 3\n"),
+            vec![c.n1.clone(), c.n2.clone()],
+        ),
+        6 => (
+            format!("from {t} | derive {{zq = {x} * 2}} | select {{{b} = zq, {x}, {a} = {x} - 1}} | sort {{{a}}} | take 2 | derive {{zw = {b}}} | filter zw > 0\n"),
+            vec![c.n2.clone(), c.other.clone(), c.n1.clone(), "zw".into()],
         ),
         _ => (
             format!("from {t} | select {{{b}, {x}, {a}}} | filter {x} > 1 | take 2..4 | derive {{zw = 1}} | filter {a} != {b}\n"),
